@@ -280,6 +280,15 @@ fn run_op(st: &mut St, op: &Vec<J>) -> String {
         "stop" => { stop_query(); "ok".to_string() },
         "start" => { start_query(); "ok".to_string() },
         "stopped" => format!("{}", query_stopped()),
+        "expire" => {
+            // a real expiry of the timer thread, then the cancel every driver does afterwards
+            let t = start_query_timer(1);
+            let t0 = std::time::Instant::now();
+            while !query_stopped() && t0.elapsed().as_secs() < 20 { std::thread::sleep(std::time::Duration::from_millis(1)); }
+            std::thread::sleep(std::time::Duration::from_millis(5));
+            cancel_timer(t);
+            "ok".to_string()
+        },
         "stop_at" => { hook_stop_at(op[1].i64()); "ok".to_string() },
         "evalf" => {
             // evaluate an arithmetic / join function directly
